@@ -87,10 +87,14 @@ def w1(repo, res):
                 conv = [s for s in ast.walk(fn) if isinstance(s, ast.Call) and (getattr(s.func, "id", None) == "format_star_input" or
                                                                                 getattr(s.func, "attr", None) == "_validate_getBH_inputs")
                         and any(isinstance(x, ast.Name) and x.id == va for x in ast.walk(s))]
+                # the same conversion written out: `va[0] if len(va) == 1 else list(va)` (what format_star_input does)
+                conv += [s for s in ast.walk(fn) if isinstance(s, ast.IfExp) and norm(s.test) in (f"len({va}) == 1", f"1 == len({va})")
+                         and norm(s.body) == f"{va}[0]" and norm(s.orelse) == f"list({va})"]
                 if not conv:
                     problems.append(f"star input *{va} does not pass through format_star_input/_validate_getBH_inputs")
             # the object itself is one of the two positional arguments
-            if cl is not None and not any(isinstance(a, ast.Name) and a.id == "self" for a in c.args) and cl.name != "BaseCollection":
+            if cl is not None and not any(isinstance(a, ast.Name) and a.id == "self" for a in list(c.args) + [k.value for k in c.keywords if k.arg in ("sources", "observers")]) \
+                    and cl.name != "BaseCollection":
                 problems.append("`self` is not handed to getBH_level2")
             if fn.args.kwarg is not None:
                 if not any(k.arg is None and isinstance(k.value, ast.Name) and k.value.id == fn.args.kwarg.arg for k in c.keywords):
